@@ -22,7 +22,9 @@ def golden_shards(ctx):
     parts.append("int main(int argc, char ** argv) {\n    vh::init(argc, argv);\n" + "\n".join(calls) + "\n    return vh::finish();\n}")
     src = "\n".join(parts)
     return man, [dict(name="golden/asan-dbg", src=src, is_text=True, flavour="asan-dbg"),
-                 dict(name="golden/asan-rel", src=src, is_text=True, flavour="asan-rel", primary=False)]
+                 dict(name="golden/asan-rel", src=src, is_text=True, flavour="asan-rel", primary=False),
+                 # the reader may be built with -mbmi2 (Morton's pdep path) while the writer was not: same cells expected
+                 dict(name="golden/asan-dbg+bmi2", src=src, is_text=True, flavour="asan-dbg+bmi2", primary=False)]
 
 
 def run(ctx):
